@@ -153,6 +153,11 @@ def step : List String → String
     | some cs, some pk, some sg =>
       resLine (fun h => hx h ++ " " ++ hexL (CertBlock.vxFuseWords h))
         (CertBlock.vxCertHash execOps { constraints := cs, pubKey := pk, signature := sg }) | _, _, _ => "bad-op"
+  -- HAB SrkItemEcc (generated field description)
+  | ["habecc_export", ks, x, y, fl] => match parseNat ks, parseNat x, parseNat y, parseNat fl with
+    | some ks, some x, some y, some fl => okHex (Rkht.habEccExport { keySize := ks, x := x, y := y, flag := fl }) | _, _, _, _ => "bad-op"
+  | ["habecc_parse", h] => match parseHex h with
+    | some b => resLine (fun (i : Rkht.HabEccItem) => s!"{i.keySize} {i.x} {i.y} {i.flag}") (Rkht.habEccParse b) | none => "bad-op"
   | _ => "bad-op"
 
 def main : IO Unit := Driver.loop step
